@@ -243,6 +243,20 @@ CHECKS = {
         "cross-application teardown order is only recorded.",
         "5/C20",
     ),
+    "C18": (
+        "exploration",
+        "fault enumeration (one stall point per case: pool wait, DNS, socket connect, request write, every byte offset of the "
+        "response, with progressive delivery) x timeout kind x value, and schedule enumeration of the cancellation point "
+        "(cancel after k loop iterations for every k), plus Hypothesis-sampled combinations, on a real TCPConnector with "
+        "scripted resolver and in-memory sockets under virtual time; residue invariants over connector, transports and tasks",
+        "Every explored stall is reported as asyncio.TimeoutError within the configured bound (+1 s ceiling above 5 s) of the "
+        "last progress and not earlier than the smallest configured bound; after a timeout or cancellation the connection "
+        "is closed, no slot or waiter remains, no task of the request survives, bystanders sharing the pool queue or the DNS "
+        "lookup complete normally and a follow-up request succeeds.",
+        "Socket-level calls are replaced by in-memory transports (no kernel timing); proxies and TLS handshakes are not "
+        "simulated; which timeout must cover which phase is stated in the check's assumptions.",
+        "5/C18",
+    ),
 }
 
 REASON_PENDING = "check not built yet in this round (design in DESIGN.md section 5); not claimed until it runs quietly on the unchanged tree"
